@@ -16,6 +16,11 @@ CHECKS = {
    text='Kernel-checked theorems over the UTF-8 DFA table regenerated from lomond/utf8validator.py on every run: the DFA accepts exactly RFC 3629 well-formed strings, rejects exactly when no well-formed extension exists (fail-fast is exact), chunked validation equals one-shot validation, and the strict decoder is the exact inverse of the shortest-form encoder. Message-level verdict and fail-fast are tied to the code by running the real receive path and the hand-written core model on the same streams (every fragmentation / read split generated, control frames between fragments, extension negotiated), with an independent RFC 3629 oracle judging the real output.',
    note='Trusted: Lean kernel (axioms propext, Quot.sound at most), harness/translate.py, the correspondence harness and its generators, CPython codec as second oracle. The message-level path (Model/Core.lean) is a hand-written model validated differentially, not verified; wsaccel validator not covered.',
    ref='6 C05'),
+ 'C08': dict(
+   technique='Lean 4 proof (global invariant over every function of the core model up to run(): at most one Close frame handed to the socket and nothing after it, for all cfg/react/env; exact computations of each handshake step) + differential correspondence',
+   text='18 kernel-checked theorems about the core model: close() on an open websocket writes exactly one Close frame with the given code and reason and sets closing; every later send is refused with a WebSocketError and writes nothing; for EVERY configuration, application and environment script the trace of a connection contains at most one Close frame and no write at all after it (single_close_no_data_after, by an invariant proved for every function up to run()); a server Close yields Closing while sends are still accepted, then exactly one echo with the same code and reason, then EOF ends gracefully; a server Close after the client closed yields Closed, then closed, then a graceful Disconnected with the socket closed; messages are still delivered while closing. Tied to the code by 500 (quick) / 8000 (thorough) histories with close() at any event incl. before Ready, server Close variants, sends at any event, compared with the model and judged by wire-level rules written from the property.',
+   note='Single-threaded histories only (threads: C12). The graceful-end theorems assume no timer fires in the same cycle (C15). Trusted: Lean kernel, core model validated differentially, simulated world.',
+   ref='6 C08'),
  'C13': dict(
    technique='Lean 4 proof (post-condition of run() for every configuration, environment script and application, by composition of per-function state relations) + differential correspondence',
    text='Kernel-checked theorem abandon_releases: in the model of session.run() with all its generators, try/except/finally clauses and the GeneratorExit raised at whichever yield the consumer stops at, the connection always ends with socket and selector closed - for every configuration, every server behaviour and fault, every application reaction including abandoning at any event by any mechanism. A second theorem exhibits the leak of the pinned commit (abandon at Connected). The model is tied to the code by abandoning the real generator at every event index of many scenarios by close(), break+drop, exception in the handler and exception leaving a with-block, and comparing trace and final socket/selector state with the model; an independent oracle checks the simulated socket and selector were closed.',
